@@ -24,7 +24,7 @@ theorem boolVal_eq_accVal (r : Bool) : boolVal r = accVal (if r then .t else .f)
 
 /-- `ValueRange.Includes` does not panic on a known mark-free well-formed value of
 the range's own type when the refinement kind fits the type -/
-theorem includes_ok (t : Ty) (raw : Rfn) (hfit : raw.fits t = true) (x : Payload) (hx : x.wf t = true)
+theorem includes_ok (t : Ty) (raw : Rfn) (hfit : raw.fits t = true) (x : Payload) (hx : x.shaped t = true)
     (kx : x.isKnown = true) (mx : x.containsMarked = false) : ∃ o, includes ⟨t, raw⟩ ⟨t, x⟩ = .ok o := by
   unfold includes
   split
@@ -40,13 +40,13 @@ theorem includes_ok (t : Ty) (raw : Rfn) (hfit : raw.fits t = true) (x : Payload
   rename_i hn1 hn2 hnull hconf hdyn
   simp only [Value.isNull] at hnull
   cases raw <;> cases t <;> simp [Rfn.fits] at hfit <;>
-    cases x <;> simp [Payload.wf, Ty.isBool, Ty.isNumber, Ty.isString, Payload.isKnown, Payload.unmark1,
+    cases x <;> simp [Payload.shaped, Ty.isBool, Ty.isNumber, Ty.isString, Payload.isKnown, Payload.unmark1,
       Payload.containsMarked, Payload.isNull] at hx kx mx hnull <;>
     simp <;> (try (repeat' split)) <;> (try exact ⟨_, rfl⟩)
 
 /-- an operand of the symmetry theorem, with the fuel that suffices for it -/
 structure GoodU (t : Ty) (p : Payload) (fuel : Nat) : Prop where
-  wf : p.wf t = true
+  wf : p.shaped t = true
   nomark : p.containsMarked = false
   depth : p.depth ≤ fuel
 
@@ -59,21 +59,21 @@ def GoodUZip (fuel : Nat) : List Ty → List Payload → Prop
   | t :: ts, x :: xs => GoodU t x fuel ∧ GoodUZip fuel ts xs
   | _, _ => False
 
-theorem goodUAll_of {e : Ty} {fuel : Nat} : ∀ {xs : List Payload}, Payload.wfAll e xs = true →
+theorem goodUAll_of {e : Ty} {fuel : Nat} : ∀ {xs : List Payload}, Payload.shapedAll e xs = true →
     Payload.containsMarkedL xs = false → Payload.depthL xs ≤ fuel → GoodUAll e fuel xs
   | [], _, _, _ => trivial
   | x :: xs, hw, hm, hd => by
-    simp only [Payload.wfAll, Payload.containsMarkedL, Payload.depthL, Bool.and_eq_true,
+    simp only [Payload.shapedAll, Payload.containsMarkedL, Payload.depthL, Bool.and_eq_true,
       Bool.or_eq_false_iff] at hw hm hd
     exact ⟨⟨hw.1, hm.1, by omega⟩, goodUAll_of hw.2 hm.2 (by omega)⟩
 
-theorem goodUZip_of {fuel : Nat} : ∀ {ts : List Ty} {xs : List Payload}, Payload.wfZip ts xs = true →
+theorem goodUZip_of {fuel : Nat} : ∀ {ts : List Ty} {xs : List Payload}, Payload.shapedZip ts xs = true →
     Payload.containsMarkedL xs = false → Payload.depthL xs ≤ fuel → GoodUZip fuel ts xs
   | [], [], _, _, _ => trivial
-  | [], _ :: _, hw, _, _ => by simp [Payload.wfZip] at hw
-  | _ :: _, [], hw, _, _ => by simp [Payload.wfZip] at hw
+  | [], _ :: _, hw, _, _ => by simp [Payload.shapedZip] at hw
+  | _ :: _, [], hw, _, _ => by simp [Payload.shapedZip] at hw
   | t :: ts, x :: xs, hw, hm, hd => by
-    simp only [Payload.wfZip, Payload.containsMarkedL, Payload.depthL, Bool.and_eq_true,
+    simp only [Payload.shapedZip, Payload.containsMarkedL, Payload.depthL, Bool.and_eq_true,
       Bool.or_eq_false_iff] at hw hm hd
     exact ⟨⟨hw.1, hm.1, by omega⟩, goodUZip_of hw.2 hm.2 (by omega)⟩
 
@@ -252,26 +252,26 @@ def Rfn.forRange : Rfn → Rfn
 theorem fits_forRange (t : Ty) (r : Rfn) (h : r.fits t = true) : (Rfn.forRange r).fits t = true := by
   cases r <;> simp_all [Rfn.fits, Rfn.forRange]
 
-theorem range_unk (t : Ty) (r : Rfn) : range ⟨t, .unk r⟩ = .ok ⟨t, Rfn.forRange r⟩ := by
+theorem range_of_unk (t : Ty) (r : Rfn) : range ⟨t, .unk r⟩ = .ok ⟨t, Rfn.forRange r⟩ := by
   cases r <;> rfl
 
 theorem unk_of_not_known {p : Payload} (hm : p.containsMarked = false) (hk : p.isKnown = false) :
     ∃ r, p = .unk r := by
   cases p <;> simp [Payload.isKnown, Payload.unmark1, Payload.containsMarked] at hm hk ⊢
 
-theorem equalsPre_known_unk (t : Ty) (x : Payload) (r : Rfn) (wx : x.wf t = true) (kx : x.isKnown = true)
+theorem equalsPre_known_unk (t : Ty) (x : Payload) (r : Rfn) (wx : x.shaped t = true) (kx : x.isKnown = true)
     (mx : x.containsMarked = false) (hr : r.fits t = true) :
     ∃ acc, equalsPre ⟨t, x⟩ ⟨t, .unk r⟩ = .ok (some (accVal acc)) := by
   obtain ⟨o, ho⟩ := includes_ok t _ (fits_forRange t r hr) x wx kx mx
   have h1 : (Payload.unk r).isKnown = false := rfl
   have h2 : (Payload.unk r).isNull = false := rfl
-  simp only [equalsPre, range_unk, Res.bind_ok, ho, Value.isKnown, Value.isNull, kx, h1, h2, definitelyNotNull]
+  simp only [equalsPre, range_of_unk, Res.bind_ok, ho, Value.isKnown, Value.isNull, kx, h1, h2, definitelyNotNull]
   simp
   repeat' split
   all_goals first | exact ⟨.f, rfl⟩ | exact ⟨.u, rfl⟩ | exact ⟨.t, rfl⟩
 
-theorem equalsPre_total (t : Ty) (x y : Payload) (wx : x.wf t = true) (mx : x.containsMarked = false)
-    (wy : y.wf t = true) (my : y.containsMarked = false) :
+theorem equalsPre_total (t : Ty) (x y : Payload) (wx : x.shaped t = true) (mx : x.containsMarked = false)
+    (wy : y.shaped t = true) (my : y.containsMarked = false) :
     ∃ o, equalsPre ⟨t, x⟩ ⟨t, y⟩ = .ok o ∧ equalsPre ⟨t, y⟩ ⟨t, x⟩ = .ok o ∧
       (∀ r, o = some r → ∃ acc, r = accVal acc) ∧
       (o = none → x.isKnown = true ∧ y.isKnown = true ∧ x.isNull = false ∧ y.isNull = false) := by
@@ -284,17 +284,17 @@ theorem equalsPre_total (t : Ty) (x y : Payload) (wx : x.wf t = true) (mx : x.co
         definitelyNotNull]
   · -- x unknown, y known
     obtain ⟨r, rfl⟩ := unk_of_not_known mx kx
-    obtain ⟨acc, h⟩ := equalsPre_known_unk t y r wy ky my (by simpa [Payload.wf] using wx)
+    obtain ⟨acc, h⟩ := equalsPre_known_unk t y r wy ky my (by simpa [Payload.shaped] using wx)
     exact ⟨some (accVal acc), by rw [equalsPre_symm]; exact h, h, fun _ h => ⟨acc, by cases h; rfl⟩,
       fun h => by cases h⟩
   · -- x known, y unknown
     obtain ⟨r, rfl⟩ := unk_of_not_known my ky
-    obtain ⟨acc, h⟩ := equalsPre_known_unk t x r wx kx mx (by simpa [Payload.wf] using wy)
+    obtain ⟨acc, h⟩ := equalsPre_known_unk t x r wx kx mx (by simpa [Payload.shaped] using wy)
     exact ⟨some (accVal acc), h, by rw [equalsPre_symm]; exact h, fun _ h => ⟨acc, by cases h; rfl⟩,
       fun h => by cases h⟩
   · -- both known
-    refine ⟨_, equalsPre_known t t x y kx ky, ?_, ?_, ?_⟩
-    · rw [equalsPre_known t t y x ky kx]
+    refine ⟨_, equalsPre_of_known t t x y kx ky, ?_, ?_, ?_⟩
+    · rw [equalsPre_of_known t t y x ky kx]
       cases x.isNull <;> cases y.isNull <;> rfl
     · intro r h
       cases hx : x.isNull <;> cases hy : y.isNull <;> simp [hx, hy] at h <;> subst h
@@ -354,34 +354,34 @@ theorem equalsFuel_symm : ∀ fuel : Nat, SymOk (equalsFuel fuel) fuel
         | unk _ => simp [Payload.isKnown, Payload.unmark1] at kx
         | null => simp [Payload.isNull, Payload.unmark1] at nx
         | marked _ _ => simp [Payload.containsMarked] at mx
-        | bad _ => simp [Payload.wf] at wx
-        | caps => cases t <;> simp [Payload.wf] at wx; simp [Ty.plain] at hp
-        | sset _ _ => cases t <;> simp [Payload.wf] at wx; simp [Ty.plain] at hp
+        | bad _ => simp [Payload.shaped] at wx
+        | caps => cases t <;> simp [Payload.shaped] at wx; simp [Ty.plain] at hp
+        | sset _ _ => cases t <;> simp [Payload.shaped] at wx; simp [Ty.plain] at hp
         | b v =>
-          simp only [Payload.wf, Ty.isBool_iff] at wx
+          simp only [Payload.shaped, Ty.isBool_iff] at wx
           subst wx
-          cases y <;> simp [Payload.wf, Ty.isBool, Ty.isNumber, Ty.isString, Payload.containsMarked,
+          cases y <;> simp [Payload.shaped, Ty.isBool, Ty.isNumber, Ty.isString, Payload.containsMarked,
             Payload.isKnown, Payload.isNull, Payload.unmark1] at wy ky my ny
           exact ok_accVal_pair _ _ (BEq.comm)
         | n v =>
-          simp only [Payload.wf, Ty.isNumber_iff] at wx
+          simp only [Payload.shaped, Ty.isNumber_iff] at wx
           subst wx
-          cases y <;> simp [Payload.wf, Ty.isBool, Ty.isNumber, Ty.isString, Payload.containsMarked,
+          cases y <;> simp [Payload.shaped, Ty.isBool, Ty.isNumber, Ty.isString, Payload.containsMarked,
             Payload.isKnown, Payload.isNull, Payload.unmark1] at wy ky my ny
-          exact ok_accVal_pair _ _ (Num.rawEqual_symm _ _)
+          exact ok_accVal_pair _ _ (Num.rawEq_symm _ _)
         | s v =>
-          simp only [Payload.wf, Ty.isString_iff] at wx
+          simp only [Payload.shaped, Ty.isString_iff] at wx
           subst wx
-          cases y <;> simp [Payload.wf, Ty.isBool, Ty.isNumber, Ty.isString, Payload.containsMarked,
+          cases y <;> simp [Payload.shaped, Ty.isBool, Ty.isNumber, Ty.isString, Payload.containsMarked,
             Payload.isKnown, Payload.isNull, Payload.unmark1] at wy ky my ny
           exact ok_accVal_pair _ _ (BEq.comm)
         | seq xs =>
           simp only [Payload.containsMarked, Payload.depth] at mx dx
-          cases t <;> simp [Payload.wf] at wx
+          cases t <;> simp [Payload.shaped] at wx
           case list e =>
             simp only [Ty.plain] at hp
             simp only [Ty.wf] at hw
-            cases y <;> simp [Payload.wf, Ty.isBool, Ty.isNumber, Ty.isString, Payload.containsMarked,
+            cases y <;> simp [Payload.shaped, Ty.isBool, Ty.isNumber, Ty.isString, Payload.containsMarked,
               Payload.isKnown, Payload.isNull, Payload.unmark1] at wy ky my ny
             rename_i ys
             simp only [Payload.depth] at dy
@@ -396,7 +396,7 @@ theorem equalsFuel_symm : ∀ fuel : Nat, SymOk (equalsFuel fuel) fuel
           case tuple ts =>
             simp only [Ty.plain] at hp
             simp only [Ty.wf] at hw
-            cases y <;> simp [Payload.wf, Ty.isBool, Ty.isNumber, Ty.isString, Payload.containsMarked,
+            cases y <;> simp [Payload.shaped, Ty.isBool, Ty.isNumber, Ty.isString, Payload.containsMarked,
               Payload.isKnown, Payload.isNull, Payload.unmark1] at wy ky my ny
             rename_i ys
             simp only [Payload.depth] at dy
@@ -405,11 +405,11 @@ theorem equalsFuel_symm : ∀ fuel : Nat, SymOk (equalsFuel fuel) fuel
             exact map_accVal_pair (equalsZip_symm ih ts xs ys hw hp gx gy)
         | smap kxs xs =>
           simp only [Payload.containsMarked, Payload.depth] at mx dx
-          cases t <;> simp [Payload.wf] at wx
+          cases t <;> simp [Payload.shaped] at wx
           case map e =>
             simp only [Ty.plain] at hp
             simp only [Ty.wf] at hw
-            cases y <;> simp [Payload.wf, Ty.isBool, Ty.isNumber, Ty.isString, Payload.containsMarked,
+            cases y <;> simp [Payload.shaped, Ty.isBool, Ty.isNumber, Ty.isString, Payload.containsMarked,
               Payload.isKnown, Payload.isNull, Payload.unmark1] at wy ky my ny
             rename_i kys ys
             simp only [Payload.depth] at dy
@@ -424,7 +424,7 @@ theorem equalsFuel_symm : ∀ fuel : Nat, SymOk (equalsFuel fuel) fuel
           case object ns ts os =>
             simp only [Ty.plain] at hp
             simp only [Ty.wf, Bool.and_eq_true] at hw
-            cases y <;> simp [Payload.wf, Ty.isBool, Ty.isNumber, Ty.isString, Payload.containsMarked,
+            cases y <;> simp [Payload.shaped, Ty.isBool, Ty.isNumber, Ty.isString, Payload.containsMarked,
               Payload.isKnown, Payload.isNull, Payload.unmark1] at wy ky my ny
             rename_i kys ys
             simp only [Payload.depth] at dy
@@ -437,7 +437,7 @@ end CtyModel
 namespace CtyModel
 open Value
 
-theorem Ty.equals_false_of_ne {a b : Ty} (ha : a.wf = true) (hb : b.wf = true) (h : a ≠ b) :
+theorem Ty.equals_false_of_ne {a b : Ty} (ha : Ty.wf a = true) (hb : Ty.wf b = true) (h : a ≠ b) :
     a.equals b = false := by
   cases he : a.equals b with
   | false => rfl
@@ -445,12 +445,12 @@ theorem Ty.equals_false_of_ne {a b : Ty} (ha : a.wf = true) (hb : b.wf = true) (
 
 /-- `Equals` is symmetric on well-formed mark-free values of plain types — of the
 same type or not, known or not: the two calls return the very same result. -/
-theorem equals_symm_of_wf (a b : Value) (wa : a.wf = true) (wb : b.wf = true) (pa : a.ty.plain = true)
+theorem equals_symm_of_wf (a b : Value) (wa : a.shaped = true) (wb : b.shaped = true) (pa : a.ty.plain = true)
     (pb : b.ty.plain = true) (ma : a.containsMarked = false) (mb : b.containsMarked = false) :
     equals a b = equals b a := by
   obtain ⟨ta, va⟩ := a
   obtain ⟨tb, vb⟩ := b
-  simp only [Value.wf, Bool.and_eq_true] at wa wb
+  simp only [Value.shaped, Bool.and_eq_true] at wa wb
   simp only [Value.containsMarked] at ma mb
   simp only [equals, Value.containsMarked, ma, mb, Bool.or_self, Bool.false_eq_true, if_false, equalsP]
   rw [Nat.max_comm vb.depth va.depth]
